@@ -8,6 +8,7 @@ CONSTANTS
  CleanSet = {}
  UseCache = TRUE
  ForeignCached = {1}
+ PublishEarly = FALSE
  CacheKeyIgnoresPrefix = TRUE
  WithReader = TRUE
 INVARIANTS NoSkipAcrossStores SuccessImpliesAllReachableStored
